@@ -398,8 +398,7 @@ def families(ctx):
 
 
 def run(ctx):
-    for name, fn in families(ctx):
-        ctx.guarded(name, fn)
+    ctx.run_families(families(ctx))
     ctx.bounds += ['all i64 / u32 inputs at full width (Int-mode encoding, no unrolling: kernels are loop-free)']
     ctx.assumptions += ['model catalogue (mir2smt/models.py) for core::num checked_*/rem_euclid/is_negative and Option/Try plumbing',
                         'rustc MIR of the working tree (nightly, overflow-checks=on) is the semantics of the kernels',
